@@ -286,6 +286,8 @@ def occ_contrib(M, n, row, per_block, nw):
             v = w / tot
             if v > 0:
                 M[(row, ctx + i * n)] = M.get((row, ctx + i * n), F(0)) + v
+                if v.denominator > M.get("maxden", 1):
+                    M["maxden"] = v.denominator          # bookkeeping for float32_exact (removed by spec)
 
 
 def norm_block(b, raw):
@@ -362,7 +364,14 @@ def spec(p, radii, nw):
     M = {}
     for row, per_block in occs:
         occ_contrib(M, p["n"], row, per_block, nw)
+    p["maxden"] = M.pop("maxden", 1)
     return M
+
+
+def float32_exact(p, S):
+    """Dyadic events whose every partial sum fits the 24-bit significand of the float32 accumulator."""
+    d = p.get("maxden", 1)
+    return d & (d - 1) == 0 and (not S or d * max(S.values()) < 2 ** 24)
 
 # ------------------------------------------------------------------ Coq rendering
 
@@ -453,6 +462,19 @@ def diff_matrix(expected, triples, exact):
     return None
 
 
+def diff_events(model_events, impl_events, p, nw):
+    """The appended events, in loop order: model (blk, row, col, (num, den)) vs the recorded coo_append calls."""
+    if len(model_events) != len(impl_events):
+        return "event lists differ in length: model %d, implementation %d" % (len(model_events), len(impl_events))
+    exact = is_exact(p, nw) and max([den for _, _, _, (_, den) in model_events] or [1]) < 2 ** 24
+    for k, ((blk, r, c, (num, den)), (ri, ci, vi)) in enumerate(zip(model_events, impl_events)):
+        v = F(num, den)
+        same = (F(vi) == v) if exact else abs(float(v) - vi) <= REL * max(abs(float(v)), abs(vi)) + ABS
+        if (r, c) != (ri, ci) or not same or not (blk * p["n"] <= c < (blk + 1) * p["n"]):
+            return "event %d differs: model (block %d, row %d, col %d, %s), implementation (%d, %d, %r)" % (k, blk, r, c, v, ri, ci, vi)
+    return None
+
+
 def nontrivial(p):
     return "error" not in p and any(len(x) > 1 for x in (p["docs"] if p["kind"] != "multi" else [[t for ms in d for t in ms] for d in p["docs"]]))
 
@@ -502,7 +524,7 @@ def judge(ctx, case, res, model_val, stats, replay_mode=False):
     if S is None:
         stats["undefined"] += 1
         return None
-    exact = is_exact(p, nw)
+    exact = is_exact(p, nw) and float32_exact(p, S)
     stats["exact" if exact else "tolerance"] += 1
     d = diff_matrix(S, out["triples"], exact)
     if d is not None:
@@ -525,6 +547,7 @@ def judge(ctx, case, res, model_val, stats, replay_mode=False):
     d = diff_matrix(Mm, out["triples"], exact)
     if d is not None:
         return "model (Coq) and implementation differ: " + d
+    p["exact"] = exact
     return None
 
 
@@ -565,7 +588,7 @@ def shrink(case):
 STAT_KEYS = ["expected_error", "undefined", "exact", "tolerance", "oracle_ok", "corr"]
 
 
-N_JIT_QUICK, N_JIT_THOROUGH = 12, 160
+N_JIT_QUICK, N_JIT_THOROUGH = 8, 160
 
 
 def start_compiled(ex, cases, n_jit):
@@ -611,7 +634,7 @@ def same_result(a, b):
 def run(ctx, replay=None):
     C.run_gate(ctx)
     n = 400 if ctx.quick else 5000
-    n_model = 120 if ctx.quick else 900
+    n_model = 200 if ctx.quick else 1200
     if replay:
         cases = [replay["case"]]
     else:
@@ -619,6 +642,14 @@ def run(ctx, replay=None):
     from concurrent.futures import ThreadPoolExecutor
     ex = ThreadPoolExecutor(max_workers=6)
     jit_idx, futs = start_compiled(ex, cases, N_JIT_QUICK if ctx.quick else N_JIT_THOROUGH)
+    # event-level correspondence (interpreted run only): small cases log every coo_append call in order
+    n_ev = 0
+    for c in cases:
+        if n_ev >= (60 if ctx.quick else 400) and not replay:
+            break
+        if sum(len(t) for t in tokens_of(c)) <= 16 and c["kw"].get("n_iter", 0) == 0:
+            c["log_events"] = True
+            n_ev += 1
     # all cases interpreted (NUMBA_DISABLE_JIT=1: python semantics of the same source, ~ms per case)
     impl, info = C.run_impl("c03", cases, {"NUMBA_DISABLE_JIT": "1"})
     if impl is None or len(impl) != len(cases):
@@ -639,6 +670,9 @@ def run(ctx, replay=None):
         radii, _ = expected_radii(p, r["ok"]["radii"])
         exprs.append(coq_expr(p, radii, bool(c["kw"].get("normalize_windows", True))))
         idx.append(i)
+        if "events" in r["ok"]:
+            exprs.append("show_events " + coq_events(p, radii, bool(c["kw"].get("normalize_windows", True))))
+            idx.append(("ev", i))
     model = {}
     try:
         vals = C.coq_eval_sharded("C03", HEADER, exprs, shard=20, jobs=8)
@@ -656,6 +690,8 @@ def run(ctx, replay=None):
             ctx.report("compiled and interpreted execution differ: %s vs %s" % (str(rj)[:250], str(impl[i])[:250]),
                        {"stage": "oracle", "case": cases[i], "compiled": rj, "interpreted": impl[i]})
         elif "ok" in rj:
+            if "events" in impl[i].get("ok", {}):
+                rj["ok"]["events"] = impl[i]["ok"]["events"]
             impl[i] = rj           # judge the compiled result where there is one
     ctx.coverage["modes"] = {"NUMBA_DISABLE_JIT=1": len(impl), "compiled": len(jit),
                              "compiled_wall_s": {k: v["wall_s"] for k, v in jit_info.items()}}
@@ -663,9 +699,13 @@ def run(ctx, replay=None):
     corr_bad = []
     before = len(ctx.violations)
     n_shrunk = 0
+    n_ev_ok = 0
     for i, (c, r) in enumerate(zip(cases, impl)):
         nv = len(ctx.violations)
         d = judge(ctx, c, r, model.get(i), stats)
+        if d is None and ("ev", i) in model and len(ctx.violations) == nv:
+            d = diff_events(model[("ev", i)], r["ok"]["events"], plan_of(c), bool(c["kw"].get("normalize_windows", True)))
+            n_ev_ok += d is None
         if d is not None:
             corr_bad.append((c, d))
         if len(ctx.violations) > nv and not replay and n_shrunk < 2 and "ok" in r:
@@ -682,7 +722,7 @@ def run(ctx, replay=None):
                             "orientations x fixed/variable windows x kernels x offset/normalize/power x mix weights x "
                             "normalize_windows x excluded/masked tokens x n-gram size 1-3 x timestamp shifts 0/1e3/1.6e9; "
                             "non-trivial = some document with >= 2 tokens; distinct by case hash")
-    ctx.coverage["correspondence"] = {"cases": stats["corr"], "disagreements": len(corr_bad),
+    ctx.coverage["correspondence"] = {"cases": stats["corr"], "event_lists_equal_in_order": n_ev_ok, "disagreements": len(corr_bad),
                                       "model": "Model/K02_Windows.v + K03_Cooc.v on Qc via vm_compute (event list summed by key)"}
     ctx.coverage["oracle"] = {"cases": stats["oracle_ok"], "exact": stats["exact"], "tolerance_2e-5": stats["tolerance"],
                               "expected_errors": stats["expected_error"], "undefined_mean_gap_0": stats["undefined"]}
